@@ -7,8 +7,14 @@ input and
   * runs the model (Kap/Model/C10.lean) on it and compares → MISMATCH.
 Aliasing: sink 0 must show exactly the written points, and every sink's final view must equal the copy it took at
 ingestion (a sibling that wrote into a shared map changes the final view).
+Carriers (log, httpOut, httpPost, union) do not transform: their sink is a LATE consumer (it starts reading when its
+producer has emitted everything) and must find every batch with exactly the points that entered; the model of a carrier
+that re-buffers (parent = a per-point node on a batch edge) is `Kap.C10.Buf` run with the program EXTRACTED from
+edge/buffered.go (Kap/Gen/C10.lean: bufferProg), one buffer per node / group / parent edge, every emitted message read in
+the final heap.
 -/
 import Kap.Spec.C10
+import Kap.Gen.C10
 open Kap Kap.C10
 
 namespace Kap.C10.Drv
@@ -298,6 +304,50 @@ def nodeBranches (n : Node) (inp : Edge) (out : Edge) : List String :=
       (if all.any (fun p => (gbTagNames c p.tags).any (fun d => (aget p.tags d).isNone)) then ["dimension-tag-absent"] else []) ++
       (if nOut > 0 then ["emit"] else []) ++ common)
 
+/-! ### carriers -/
+
+def isCarrier (k : String) : Bool := k == "log" || k == "httpOut" || k == "httpPost" || k == "union"
+
+/-- nodes whose batches leave them as ONE BufferedBatchMessage (a carrier hands such a batch on without touching a buffer) -/
+def emitsBuffered (k : String) : Bool := k == "window" || k == "groupBy" || isCarrier k
+
+/-- the messages of one batch as they reach a BatchBuffer behind a per-point node -/
+def batchOps (b : Batch) : List (Buf.Op BPoint Batch) :=
+  (Buf.Op.begin { b with points := [] } b.points.length :: b.points.map Buf.Op.point) ++ [Buf.Op.end_]
+
+/-- Model of a re-buffering carrier: one `BatchBuffer` per `key`, running the extracted program over the batches in arrival
+order; every emitted message is read in the FINAL heap of its buffer. `none`: a message shows a cell nobody wrote. -/
+def rebufferLate (prog : Buf.Prog) (key : Batch → String) (bs : List Batch) : Option (List Batch) := Id.run do
+  let mut sts : List (String × Buf.St BPoint Batch) := []
+  let mut order : List (String × Nat) := []
+  for b in bs do
+    let k := key b
+    let st := ((sts.find? (fun kv => kv.1 == k)).map (·.2)).getD {}
+    let st' := Buf.runFrom prog Buf.goGrow st (batchOps b)
+    order := order ++ ((List.range (st'.out.length - st.out.length)).map (fun i => (k, st.out.length + i)))
+    sts := (sts.filter (fun kv => kv.1 != k)) ++ [(k, st')]
+  let mut out : List Batch := []
+  for (k, i) in order do
+    let some st := (sts.find? (fun kv => kv.1 == k)).map (·.2) | return none
+    match (Buf.observeLate st)[i]? with
+    | some (some hdr, pts) =>
+      if pts.any (·.isNone) then return none
+      out := out ++ [{ hdr with points := pts.filterMap id }]
+    | _ => return none
+  return some out
+
+def carrierKey (kind : String) : Batch → String := if kind == "log" || kind == "union" then fun _ => "" else fun b => b.gid
+
+/-- structural cases of the buffer: per buffer instance, a later batch that fits / does not fit into what the previous left -/
+def rebufferBranches (key : Batch → String) (bs : List Batch) : List String :=
+  let keys := (bs.map key).eraseDups
+  let pairs := keys.flatMap (fun k => let l := bs.filter (fun b => key b == k); l.zip (l.drop 1))
+  (if pairs.any (fun (a, b) => b.points.length ≥ 1 && b.points.length ≤ a.points.length && a.points.length ≥ 1) then ["later-batch-fits-earlier-slice"] else []) ++
+  (if pairs.any (fun (a, b) => b.points.length > a.points.length) then ["later-batch-larger"] else []) ++
+  (if pairs.any (fun (a, b) => b.points.length ≥ 1 && b.points.length < a.points.length) then ["later-batch-shorter"] else []) ++
+  (if bs.any (fun b => b.points.isEmpty) then ["empty-batch"] else []) ++
+  (if keys.length ≥ 2 then ["several-buffers"] else []) ++ (if pairs.isEmpty then ["single-batch-per-buffer"] else [])
+
 /-! ### judging -/
 
 structure CaseData where
@@ -430,10 +480,12 @@ def judge (_id : String) (lines : Array String) : Verdict := Id.run do
       | none => return .badop l
     | ["run"] => cd := { cd with run := " ".intercalate obs }
     | ["sink", id] =>
+      if obs == ["none"] then return .badop s!"{l}: no such sink in the task"
       match id.toNat? with
       | some i => cd := { cd with sinks := cd.sinks ++ [(i, obs.drop 1)] }
       | none => return .badop l
     | ["snap", id] =>
+      if obs == ["none"] then return .badop s!"{l}: no such sink in the task"
       match id.toNat? with
       | some i => cd := { cd with snaps := cd.snaps ++ [(i, obs)] }
       | none => return .badop l
@@ -476,6 +528,44 @@ def judge (_id : String) (lines : Array String) : Verdict := Id.run do
       if !outPts.all (fun p => inPts.any (fun q => q.equivB p)) then
         return .specfail "sibling-sees-original" s!"node {n.id} (window) emitted a point that is none of the points it received"
       br := br ++ ["window"]
+      continue
+    if isCarrier n.kind then
+      let parKind := (cd.nodes[par]?.map (·.kind)).getD ""
+      let mut inp2 : Option (Edge × String) := none
+      if n.kind == "union" then
+        let some w := (n.arg "with").toNat? | return .badop s!"node {n.id}: union without with="
+        let some wToks := sinkOf w | return .badop s!"no sink for node {w}"
+        let some e2 := parseEdge (edgeIsBatch cd.nodes 64 w) wToks | return .badop s!"sink {w} unparsable"
+        inp2 := some (e2, (cd.nodes[w]?.map (·.kind)).getD "")
+      -- (1) the property: the late consumer finds exactly what entered the carrier
+      let ok := match inp2 with
+        | some (e2, _) => specUnionOk inp e2 obs
+        | none => specPassThrough inp obs
+      if !ok then
+        return .specfail s!"{n.kind}-spec" s!"node {n.id}: a carrier hands on exactly what entered it (each batch with the points that entered); entered {short inToks} but the late consumer found {short outToks}"
+      -- (2) the tie: the extracted BatchBuffer program over a heap, read late
+      let mode := if outBatch then "b" else "s"
+      let mut cbr : List String := [s!"carrier-{mode}:{n.kind}"]
+      match inp, obs with
+      | .batch bs, .batch os =>
+        let key := carrierKey n.kind
+        let side := fun (k : String) (l : List Batch) => if emitsBuffered k then some l else rebufferLate Kap.Gen.C10.bufferProg key l
+        let some m1 := side parKind bs | return .mismatch s!"node {n.id} ({n.kind}): the model of edge.BatchBuffer reads a cell nobody wrote"
+        cbr := cbr ++ (if emitsBuffered parKind then [s!"carrier-b:{n.kind}:buffered-in"] else
+          [s!"carrier-b:{n.kind}:rebuffered"] ++ (rebufferBranches key bs).map (fun b => "rebuffer:" ++ b))
+        match inp2 with
+        | some (.batch bs2, k2) =>
+          let some m2 := side k2 bs2 | return .mismatch s!"node {n.id} ({n.kind}): the model of edge.BatchBuffer reads a cell nobody wrote"
+          cbr := cbr ++ (if emitsBuffered k2 then [s!"carrier-b:{n.kind}:buffered-in"] else
+            [s!"carrier-b:{n.kind}:rebuffered"] ++ (rebufferBranches key bs2).map (fun b => "rebuffer:" ++ b))
+          if !permB Batch.equivB (m1 ++ m2) os then
+            return .mismatch s!"node {n.id} ({n.kind}): model {short ((m1 ++ m2).map renderBatch)} observed {short outToks}"
+        | some _ => return .badop s!"node {n.id}: union of a batch and a stream edge"
+        | none =>
+          if !listEquivB Batch.equivB m1 os then
+            return .mismatch s!"node {n.id} ({n.kind}): model {short (m1.map renderBatch)} observed {short outToks}"
+      | _, _ => pure ()
+      br := br ++ cbr.eraseDups.filter (fun b => !br.contains b)
       continue
     let some node := parseNode n | return .badop s!"node {n.id} unparsable"
     -- (1) the property on the observed output
